@@ -77,28 +77,28 @@ type conf struct {
 }
 
 type hist struct {
-	c      *core.Ctx
-	t      *core.Trace
-	rng    *rand.Rand
-	root   string // private temporary directory; <home> is a sub-directory of it, so that <home> has siblings
-	home   string
-	seen   map[string][]byte
-	lseen  map[string]string // symbolic links below logs/ and what they were seen to lead to
-	rich   bool              // the temporary tree has siblings of logs/ and of <home>, and symbolic links
-	lr     *rand.Rand
-	beside []string // more files outside logs/ (relative to <home>)
-	lg     *logfile.FileLogger // the active logger (index act of all)
-	d, ms  int
-	cf     conf
-	id     string
-	oname  string
+	c       *core.Ctx
+	t       *core.Trace
+	rng     *rand.Rand
+	root    string // private temporary directory; <home> is a sub-directory of it, so that <home> has siblings
+	home    string
+	seen    map[string][]byte
+	lseen   map[string]string // symbolic links below logs/ and what they were seen to lead to
+	rich    bool              // the temporary tree has siblings of logs/ and of <home>, and symbolic links
+	lr      *rand.Rand
+	beside  []string            // more files outside logs/ (relative to <home>)
+	lg      *logfile.FileLogger // the active logger (index act of all)
+	d, ms   int
+	cf      conf
+	id      string
+	oname   string
 	moved   int
-	awayDir string // where a logs directory that is moved away goes (outside the observed tree)
-	all    []*slot // every logger of this home (several histories have more than one); all[0] is logger 1
-	act    int
-	extN   int
-	err    error
-	stats  map[string]int
+	awayDir string  // where a logs directory that is moved away goes (outside the observed tree)
+	all     []*slot // every logger of this home (several histories have more than one); all[0] is logger 1
+	act     int
+	extN    int
+	err     error
+	stats   map[string]int
 }
 
 func (h *hist) fail(f string, a ...interface{}) {
